@@ -292,14 +292,14 @@ func abstractSets(s *Store) []aSet {
 func (c *fakeCache) Source(handler.EventHandler, ...predicate.Predicate) source.Source { return nil }
 
 type aMetaEvent struct {
-	Kind   string `json:"kind"` // member | finalizer | status
+	Kind   string  `json:"kind"` // member | finalizer | status
 	Member *aEvent `json:"member,omitempty"`
-	Added  bool   `json:"added,omitempty"`
-	OK     bool   `json:"ok"`
-	Err    string `json:"err,omitempty"`
-	Set    *aSet  `json:"set,omitempty"` // the ObjectSet as sent (status requests) / as stored after (finalizer)
-	Phase  *aPEv  `json:"phase,omitempty"` // kind "phase": a request on an ObjectSetPhase object
-	FPh    *int   `json:"fph,omitempty"` // phase named in the ProbeFailure message of the status sent
+	Added  bool    `json:"added,omitempty"`
+	OK     bool    `json:"ok"`
+	Err    string  `json:"err,omitempty"`
+	Set    *aSet   `json:"set,omitempty"`   // the ObjectSet as sent (status requests) / as stored after (finalizer)
+	Phase  *aPEv   `json:"phase,omitempty"` // kind "phase": a request on an ObjectSetPhase object
+	FPh    *int    `json:"fph,omitempty"`   // phase named in the ProbeFailure message of the status sent
 }
 
 type objectsetScenario struct {
@@ -310,22 +310,26 @@ type objectsetScenario struct {
 	NextUID int64  `json:"next_uid"`
 	Target  aOID   `json:"target"`
 	// ObjectSetPhase objects and environment Namespace objects (number, terminating) of the world; optional
-	Phases []aOSP   `json:"phases,omitempty"`
-	NSs    [][2]int `json:"nss,omitempty"`
+	Phases []aOSP            `json:"phases,omitempty"`
+	NSs    [][2]int          `json:"nss,omitempty"`
 	Faults map[string]string `json:"faults,omitempty"`
+	// Passes: number of consecutive Reconcile passes of the target (fresh controller and cache each; default 1).
+	// The observation of pass i+1 is reported in More[i]; its pre-state is the post-state of pass i.
+	Passes int `json:"passes,omitempty"`
 }
 
 type objectsetObs struct {
-	Res      string       `json:"res"` // nothing | done | requeue | error
-	ErrMsg   string       `json:"errmsg,omitempty"`
-	Events   []aMetaEvent `json:"events"`
-	Post     []aObj       `json:"post"`
-	Sets     []aSet       `json:"sets"`
-	Phases   []aOSP       `json:"phases"`
-	NextRV   int64        `json:"next_rv"`
-	NextUID  int64        `json:"next_uid"`
-	Requests []string     `json:"requests"`
-	Watches  []string     `json:"watches"`
+	More     []objectsetObs `json:"more,omitempty"`
+	Res      string         `json:"res"` // nothing | done | requeue | error
+	ErrMsg   string         `json:"errmsg,omitempty"`
+	Events   []aMetaEvent   `json:"events"`
+	Post     []aObj         `json:"post"`
+	Sets     []aSet         `json:"sets"`
+	Phases   []aOSP         `json:"phases"`
+	NextRV   int64          `json:"next_rv"`
+	NextUID  int64          `json:"next_uid"`
+	Requests []string       `json:"requests"`
+	Watches  []string       `json:"watches"`
 }
 
 func setEventsFromLog(s *Store, log []*Request, target storeKey) []aMetaEvent {
@@ -457,41 +461,48 @@ func init() {
 			n, _ := strconv.Atoi(k)
 			s.Faults[n] = v
 		}
-		cache := &fakeCache{s: s}
-		var c *objectsets.GenericObjectSetController
-		if sc.Target.Kind == 2 {
-			c = objectsets.NewClusterObjectSetController(s, logr.Discard(), scheme, cache, s, nil, s.RESTMapper())
-		} else {
-			c = objectsets.NewObjectSetController(s, logr.Discard(), scheme, cache, s, nil, s.RESTMapper())
-		}
-		s.ResetPass()
-		key := setKey(sc.Target)
-		res, err := c.Reconcile(context.Background(), ctrl.Request{NamespacedName: types.NamespacedName{Namespace: key.Namespace, Name: key.Name}})
-		obs := objectsetObs{}
-		nonRead := 0
-		for _, r := range s.Log {
-			if !r.DryRun && r.Verb != "get" && r.Verb != "list" {
-				nonRead++
+		runPass := func() objectsetObs {
+			cache := &fakeCache{s: s}
+			var c *objectsets.GenericObjectSetController
+			if sc.Target.Kind == 2 {
+				c = objectsets.NewClusterObjectSetController(s, logr.Discard(), scheme, cache, s, nil, s.RESTMapper())
+			} else {
+				c = objectsets.NewObjectSetController(s, logr.Discard(), scheme, cache, s, nil, s.RESTMapper())
 			}
+			s.ResetPass()
+			key := setKey(sc.Target)
+			res, err := c.Reconcile(context.Background(), ctrl.Request{NamespacedName: types.NamespacedName{Namespace: key.Namespace, Name: key.Name}})
+			obs := objectsetObs{}
+			nonRead := 0
+			for _, r := range s.Log {
+				if !r.DryRun && r.Verb != "get" && r.Verb != "list" {
+					nonRead++
+				}
+			}
+			switch {
+			case err != nil:
+				obs.Res = "error"
+				obs.ErrMsg = err.Error()
+			case res.RequeueAfter > 0 || res.Requeue:
+				obs.Res = "requeue"
+			case nonRead == 0:
+				obs.Res = "nothing"
+			default:
+				obs.Res = "done"
+			}
+			obs.Events = setEventsFromLog(s, s.Log, key)
+			obs.Requests = requestSummary(s.Log)
+			obs.Post = abstractStoreX(s)
+			obs.Sets = abstractSets(s)
+			obs.Phases = abstractPhases(s)
+			obs.NextRV, obs.NextUID = s.Counters()
+			obs.Watches = cache.Watches
+			return obs
 		}
-		switch {
-		case err != nil:
-			obs.Res = "error"
-			obs.ErrMsg = err.Error()
-		case res.RequeueAfter > 0 || res.Requeue:
-			obs.Res = "requeue"
-		case nonRead == 0:
-			obs.Res = "nothing"
-		default:
-			obs.Res = "done"
+		obs := runPass()
+		for i := 1; i < sc.Passes; i++ {
+			obs.More = append(obs.More, runPass())
 		}
-		obs.Events = setEventsFromLog(s, s.Log, key)
-		obs.Requests = requestSummary(s.Log)
-		obs.Post = abstractStoreX(s)
-		obs.Sets = abstractSets(s)
-		obs.Phases = abstractPhases(s)
-		obs.NextRV, obs.NextUID = s.Counters()
-		obs.Watches = cache.Watches
 		_ = fmt.Sprint
 		return obs, nil
 	})
